@@ -50,6 +50,9 @@ func (p *lifePlugin) Configure(context.Context, string, string, string) (api.Eve
 	switch mode {
 	case "error":
 		return 0, errors.New("verif: configuration rejected")
+	case "badmask":
+		// asks for an event it has no handler for: the stub refuses, and Start returns that error
+		return api.MustParseEventMask("RunPodSandbox,StopContainer"), nil
 	case "block":
 		<-hold
 	}
@@ -156,7 +159,7 @@ func (r *lifeRun) dial(string) (net.Conn, error) {
 	case "cut-write":
 		rt.Cut.CutAfterWrite(int64(k))
 		go handshake(rt, "")
-	case "healthy", "configure-rejected":
+	case "healthy", "configure-rejected", "configure-badmask":
 		go handshake(rt, "")
 	case "slow-configure":
 		// the runtime takes its time before it configures the plugin: Start must not return before
@@ -251,6 +254,8 @@ func (r *lifeRun) exec(sc LifeScenario, w *rec.Writer) error {
 			switch op.Arg {
 			case "configure-rejected":
 				p.mode = "error"
+			case "configure-badmask":
+				p.mode = "badmask"
 			case "drop-in-configure":
 				p.mode, p.hold = "block", make(chan struct{})
 			}
